@@ -154,7 +154,9 @@ class UnitLedger:
             if st.var is not None and rew:
                 m = sum(rew) / len(rew)
                 want = max(sum((x - m) ** 2 for x in rew) / len(rew), 1e-3)
-                if not close(st.var, want, 1e-7, scale * scale):
+                # a two-pass variance (mean first, then squared deviations) is off by about (n*eps*scale)^2 + n*eps*var:
+                # the allowance 1e-7*(1e-6*scale)^2 is far above that and far below a variance lost to cancellation
+                if not close(st.var, want, 1e-7, (1e-6 * scale) ** 2):
                     raise Violation("C04.var", "cell %r has variance %r, the history gives %r %s" % (cid, st.var, want, where))
             total += cnt if kind != "T_HOO" else 0
         if kind == "T_HOO":
